@@ -126,6 +126,9 @@ CHECKS = {
 }
 
 NOT_YET = {}
+# coverage-guided targets (fuzz/zv, fuzz/zb) run by the thorough tier; see FUZZ in ./check
+FUZZ_TARGETS = {'C01': 'zv_encode', 'C02': 'zv_roundtrip', 'C03': 'zv_dbus_diff', 'C04': 'zv_decode', 'C05': 'zv_gv', 'C08': 'zv_value', 'C11': 'msg_build',
+                'C12': 'msg_parse', 'C13': 'msg_unknown', 'C21': 'match_sem', 'C22': 'match_str', 'C23': 'addr', 'C34': 'xml'}
 
 def main():
     props = [json.loads(l) for l in open(os.path.join(ROOT, 'properties.jsonl'))]
@@ -135,6 +138,8 @@ def main():
         pid = p['id']
         if pid in CHECKS:
             tech, text, note, ref = CHECKS[pid]
+            if pid in FUZZ_TARGETS and 'libFuzzer' not in text:
+                text += f' Thorough tier adds a coverage-guided libFuzzer campaign (target {FUZZ_TARGETS[pid]}, the same case function as oracle inside the target, ASan build, 300 s x 8 jobs).'
             checks.append({
                 'property_id': pid,
                 'quick_cmd': f'./check {pid} --tier quick',
